@@ -91,10 +91,19 @@ func (a *hApp) facts(m *quickfix.Message) Sx {
 	} else if t, err := m.Header.GetTime(52); err != nil {
 		st = Sym("bad")
 	} else {
-		st = L(Sym("val"), Int(int(math.Round(t.Sub(a.now).Seconds()))))
+		d := int(math.Round(t.Sub(a.now).Seconds()))
+		if d >= -1 && d <= 1 {
+			d = 0 // second-precision timestamps (before FIX.4.2) and scheduling jitter
+		}
+		st = L(Sym("val"), Int(d))
 	}
 	code, _ := m.Body.GetString(tagVerdictValid)
-	return L(Bytes(begin), opt(49), opt(56), st, verdictSx(code))
+	var id Sx = None()
+	if m.Body.Has(11) {
+		v, _ := m.Body.GetBytes(11)
+		id = Some(Bytes(v))
+	}
+	return L(Bytes(begin), opt(49), opt(56), st, verdictSx(code), id)
 }
 
 func (a *hApp) OnCreate(quickfix.SessionID) {}
@@ -373,22 +382,30 @@ func (m msgT) bytes(now time.Time) []byte {
 // ---- the rig ----
 
 type rig struct {
-	c   cfgT
-	app *hApp
-	v   *quickfix.VerifSession
+	c       cfgT
+	app     *hApp
+	v       *quickfix.VerifSession
+	base    quickfix.MessageStore // the store below the logging wrapper (survives a restart)
+	lastOut [][]byte              // raw messages written in the last event
 }
 
-func newRig(c cfgT) *rig {
+func newRig(c cfgT) *rig { return newRigOn(c, nil) }
+
+// newRigOn builds a session on an existing store (an engine recreated on its persistent store) or on a fresh one.
+func newRigOn(c cfgT, base quickfix.MessageStore) *rig {
 	app := &hApp{refuse: map[int]bool{}, toAppOK: true}
 	sid := quickfix.SessionID{BeginString: beginStrings[c.begin], SenderCompID: c.sender, TargetCompID: c.target}
-	ms, _ := quickfix.NewMemoryStoreFactory().Create(sid)
+	ms := base
+	if ms == nil {
+		ms, _ = quickfix.NewMemoryStoreFactory().Create(sid)
+	}
 	st := &hStore{MessageStore: ms, app: app}
 	app.store = st
 	vc := quickfix.VerifSessionConfig{Initiator: c.initiator, BeginString: beginStrings[c.begin], SenderCompID: c.sender, TargetCompID: c.target,
 		ResetOnLogon: c.rLogon, ResetOnLogout: c.rLogout, ResetOnDisconnect: c.rDisc, RefreshOnLogon: c.refresh, ResendRequestChunkSize: c.chunk,
 		HeartBtInt: time.Duration(c.hb) * time.Second, HeartBtIntOverride: c.hbOver, SkipCheckLatency: c.skipLat, MaxLatency: time.Duration(c.maxLat) * time.Second,
 		DisableMessagePersist: c.noPersist, EnableLastMsgSeqNumProcessed: c.lastSeq, InChanCapacity: c.inCap, DefaultApplVerID: c.applVer}
-	return &rig{c: c, app: app, v: quickfix.NewVerifSession(vc, app, st, hValidator{})}
+	return &rig{c: c, app: app, base: ms, v: quickfix.NewVerifSession(vc, app, st, hValidator{})}
 }
 
 var engineTypes = map[string]bool{"0": true, "1": true, "2": true, "3": true, "4": true, "5": true, "A": true, "j": true}
@@ -479,6 +496,8 @@ func (r *rig) apply(ev Sx) Sx {
 		r.v.Deliver()
 	case "incoming":
 		r.v.Incoming(sxMsg(l[1]).bytes(now))
+	case "raw":
+		r.v.Incoming(AtomBytes(l[1]))
 	case "garbage":
 		r.v.Incoming([]byte("8=FIX.4.2\x019=5\x0135=D\x0134=\x01"))
 	case "inclosed":
@@ -503,6 +522,7 @@ func (r *rig) apply(ev Sx) Sx {
 		panic("unknown event " + SxString(ev))
 	}
 	out, closed := r.v.DrainOut()
+	r.lastOut = out
 	wire := List{}
 	for _, w := range out {
 		wire = append(wire, r.wireSx(w))
